@@ -420,6 +420,11 @@ func (g *Gen) loopEntryEdges(li *loopInfo, edges []inEdge) {
 		if g.keepPhi != nil && g.keepPhi[phi] {
 			// unrolled loop with cut points: counters with constant increments keep their exact value
 			v = phiEntryVals[phi]
+			if lit, ok := g.keepPhiLit[phi]; ok && len(v.S) == 1 {
+				nv := *v
+				nv.S = []string{lit}
+				v = &nv
+			}
 		}
 		// keep closure identity etc.
 		g.vals[phi] = v
